@@ -55,6 +55,10 @@ def _case(draw, tier):
     h1 = draw(st.integers(0, 1000))
     h2 = draw(st.integers(1001, 4000000))
     learner = draw(st.sampled_from(["perc", "perc", "default", "default", "svc", "svc", "tree", "tree", "tree"]))
+    ensemble = draw(st.sampled_from([False, False, True]))
+    if ensemble:
+        # the interesting schedule for an average over fold models: a worker count strictly between 1 and the number of models
+        folds, w1, w2 = max(folds, 3), draw(st.sampled_from([1, 3, 4])), 2
     return {
         "seed": draw(st.integers(0, 2**31 - 1)),
         # the default model trains at FDR 0.01 and needs > 100 targets ahead of the first decoy
@@ -73,6 +77,8 @@ def _case(draw, tier):
         # training-set cap (a random subset of the other folds, drawn with the run's generator)
         "cap": draw(st.sampled_from([None, None, 0.6])),
         "fmt": draw(st.sampled_from(["tsv", "tsv", "parquet"])),
+        # ensemble rescoring: every PSM gets the average of all fold models
+        "ensemble": ensemble,
     }
 
 
@@ -195,7 +201,7 @@ def _run_once(case, tmp, workers, tag, models_in=None):
         nrows = nrows or sum(len(f) for f in folds_idx)
         cap = int(case["cap"] * nrows * (case["folds"] - 1) / case["folds"])
     _, models, scores, descs = mokapot.brew(psms, model, test_fdr=0.2, folds=case["folds"], max_workers=workers, rng=case["brew_seed"],
-                                            subset_max_train=cap)
+                                            subset_max_train=cap, ensemble=bool(case.get("ensemble")))
     res["models"] = _model_digest(models)
     res["scores"] = _sha(b"".join(np.asarray(s, dtype=float).ravel().tobytes() for s in scores) + str(list(descs)).encode())
     prot = None
@@ -323,6 +329,10 @@ def check(case):
             require(r["files"].get(f) == A["files"][f], "differs:model-order", f"models in order {p}: result file {f} differs")
         nperm += 1
     classes = [case["learner"], f"folds{case['folds']}", f"key{case['key']}", case["fmt"]]
+    if case.get("ensemble"):
+        classes.append("ensemble")
+        if 1 < max(case["w1"], case["w2"]) and min(max(case["w1"], 1), max(case["w2"], 1)) < case["folds"]:
+            classes.append("ensemble-worker-count-between-1-and-folds")
     if case.get("cap"):
         classes.append("training-cap")
     if case["proteins"] and not case.get("fasta_decoys", True):
